@@ -135,8 +135,13 @@ func loadRound(repoDir, goarch string, overlay map[string][]byte, round int, exp
 		if pinned := loadPinnedSymtab(); pinned != nil {
 			p.alias = resolveRenames(pinned, collectSymbols(p.Pkgs))
 			// new single-expression helpers are expanded at their call sites (normalize.go); at most three rounds
-			if round < 3 && os.Getenv("SONICSA_NONORMALISE") == "" {
-				if extra, log := normaliseSources(pkgs, p.alias, pinned, overlay); extra != nil {
+			if round < 5 && os.Getenv("SONICSA_NONORMALISE") == "" {
+				extra, log := normaliseSources(pkgs, p.alias, pinned, overlay)
+				if extra == nil {
+					// no expression-level helper left: straight-line helpers called as statements (normalize_stmt.go)
+					extra, log = normaliseStatements(pkgs, p.alias, pinned, overlay)
+				}
+				if extra != nil {
 					merged := map[string][]byte{}
 					for k, v := range overlay {
 						merged[k] = v
@@ -151,6 +156,11 @@ func loadRound(repoDir, goarch string, overlay map[string][]byte, round int, exp
 				}
 			}
 			p.expanded = expanded
+			if os.Getenv("SONICSA_SHOWEXPANDED") != "" {
+				for _, l := range expanded {
+					fmt.Fprintln(os.Stderr, "expanded:", l)
+				}
+			}
 			for _, pkg := range p.Pkgs {
 				aliasByPkg.Store(pkg.Types, p.alias)
 				sc := pkg.Types.Scope()
